@@ -1,6 +1,7 @@
 #!/bin/sh
 # independent re-check of every compiled property file with coqchk -o; writes COQCHK.txt
-cd /verif/coq
+cd "$(dirname "$0")/../coq"
+flock .lock sh -c 'coq_makefile -f _CoqProject -o Makefile >/dev/null; timeout 3400 make -j16 >/dev/null 2>make.log' || { echo "make failed"; tail -5 make.log; }
 mods=$(ls props/*.v | sed 's/\.v$//; s/\//./; s/^/Verif./')
-( echo "# coqchk -silent -o -Q . Verif $mods"; date -u; timeout 7200 coqchk -silent -o -Q . Verif $mods 2>&1 | tail -40 ) > /verif/COQCHK.txt
-tail -25 /verif/COQCHK.txt
+( echo "# coqchk -silent -o -Q . Verif <all props modules>: $(echo $mods | wc -w) modules"; date -u; timeout 7200 coqchk -silent -o -Q . Verif $mods 2>&1 | tail -40 ) > ../COQCHK.txt
+tail -25 ../COQCHK.txt
